@@ -22,7 +22,7 @@ PktReason(e, st0, i, n) ==
         want == IF want0.x /\ p.hdr.profile \in {OneByteProfile, 4096} THEN [want0 EXCEPT !.profile = p.hdr.profile] ELSE want0
     IN
     IF ~p.payload_is_frag THEN "fragment_changed"
-    ELSE IF p.hdr # want THEN "hdr_" \o FirstDiff(p.hdr, want, 1) \o "_" \o Pos(i, n)
+    ELSE IF [f \in (DOMAIN p.hdr) \ {"nexts_raw"} |-> p.hdr[f]] # want THEN "hdr_" \o FirstDiff(p.hdr, want, 1) \o "_" \o Pos(i, n)
     ELSE IF p.padsize # 0 THEN "unexpected_padding"
     ELSE IF p.mres # "ok" THEN "packet_does_not_serialise"
     ELSE IF p.paylen <= e.budget /\ p.mlen > st0.mtu THEN (IF absOn /\ i = n THEN "exceeds_mtu_abs_send_time_packet" ELSE "exceeds_mtu")
